@@ -7,6 +7,10 @@ from ..core import CTX, attempt, held, violated, undefined, short
 from .. import gen, contracts, rl
 
 PROP = "C17"
+LEVEL_TEXT = 'numpy on the dense rows for both variants: constructors (C / Fortran / lazy sources), row / element / column / column-range selection in the stated domain, row and column reductions, ravel, concatenate, ufuncs with scalar / column operands on either side. Exploration.'
+LEVEL_NOTE = "trusts numpy 2.x, CPython (copy.copy, slice semantics, big ints) and the reference model in rtmon/props/c17.py; decides the executions it produces, nothing more"
+TECHNIQUE = 'runtime monitoring: reference-model oracle (numpy on dense rows) + RunLengthArray invariant on every row object'
+DESIGN_REF = "DESIGN.md sections 0, 5 (C17), 7"
 RULE = ("case = (variant: matrix | ragged | ragged-from-matrix | intervals, dtype, rows with run patterns, operation with its selectors / operands); "
         "oracle = numpy on the dense rows; distinct = hash of the case; non-trivial = >= 2 rows and a row with >= 2 runs")
 ASSUMPTIONS = ["rows have length >= 1", "column ranges on the ragged variant are non-empty in every selected row; negative steps have bounds inside the rows",
